@@ -161,6 +161,14 @@ let run cmd (a : string array) : string =
         | _ -> failwith "triple" in
       let tab = if String.trim a.(1) = "" then [] else List.map parse_t (String.split_on_char ';' a.(1)) in
       sb (kmers_present (f.(0) <> 0) (f.(1) <> 0) tab (zl a.(2)))
+  (* kpresentsa wref wq|entries start,stop,kmer/kmer/...;...|seq  -- the bit-level model (packed shift-and words) *)
+  | "kpresentsa" ->
+      let f = Array.of_list (ints a.(0)) in
+      let parse_e s = match String.split_on_char ',' s with
+        | [st; sp; ks] -> ((z1 st, (if String.trim sp = "N" then None else Some (z1 sp))), List.map zl (String.split_on_char '/' ks))
+        | _ -> failwith "entry" in
+      let es = if String.trim a.(1) = "" then [] else List.map parse_e (String.split_on_char ';' a.(1)) in
+      sb (kmers_present_sa (f.(0) <> 0) (f.(1) <> 0) es (zl a.(2)))
   (* parse spec|cmdtype(0 front,1 back,2 anywhere)|max_errors (n | mant digits)|min_overlap|rw aw indels|records name,seq;... *)
   | "parse" ->
       let t = (match List.hd (ints a.(1)) with 0 -> TFront | 1 -> TBack | _ -> TAnywhere) in
